@@ -2743,7 +2743,11 @@ primary_expression
           {
             case OBJECT_TYPE_INTEGER:
               $$.type = EXPRESSION_TYPE_INTEGER;
-              $$.value.integer = $1.value.object->value.i;
+              // The value is known only at scan time. The value the object
+              // has while compiling (the compile-time definition of an
+              // external variable) can be changed later, it must not be
+              // treated as a constant.
+              $$.value.integer = YR_UNDEFINED;
               break;
             case OBJECT_TYPE_FLOAT:
               $$.type = EXPRESSION_TYPE_FLOAT;
